@@ -7,6 +7,7 @@
    %-conversions of Base/PyFmt.v (d i u x X o c s r a %%, flags, width, precision) - a line whose format is
    outside it is [DUnsupported] and the whole result [IUnsupported], never a wrong line. *)
 From Coq Require Import List NArith Bool Arith.
+From PV Require Gen.Regexes Spec.PublishedRegexes Model.StreamProg Gen.Readers Proofs.ReaderLoopFacts.
 From PV Require Import Base.Bytes Base.Lit Base.PyFmt Gen.Tables Model.Ilog Spec.IoDrawer Proofs.IlogFacts.
 Import ListNotations.
 Open Scope N_scope.
@@ -86,6 +87,26 @@ Print Assumptions C14_params.
 Theorem C14_timestamp : forall t, t < 65536 -> format_timestamp t = ts_text t.
 Proof. exact format_timestamp_spec. Qed.
 Print Assumptions C14_timestamp.
+
+
+(* the PTE table grammar (the harness reads the tables through the repository's parser) is the published one *)
+Theorem C14_source_table_grammar :
+  Gen.Regexes.re_TBL_START_RE = Spec.PublishedRegexes.re_TBL_START_RE /\
+  Gen.Regexes.re_TBL_ENTRY_RE = Spec.PublishedRegexes.re_TBL_ENTRY_RE /\
+  Gen.Regexes.re_TBL_END_RE = Spec.PublishedRegexes.re_TBL_END_RE.
+Proof. repeat split; reflexivity. Qed.
+Print Assumptions C14_source_table_grammar.
+
+(* SOURCE-TEXT tie of the entry loop.  harness/extract_readers.py translates the loop `while stream.check_range(ILOG_ENTRY_SIZE)`
+   of parse_ilog_data and the stream statements of its body (the three reads, the all-zero `continue`) into the reader language of
+   Model/StreamProg.v (Gen/Readers.v, regenerated every run).  One unrolling of the model's loop IS one run of the translated
+   body, for every table, fuel and byte string: the loop continues exactly while the translated guard is in range, a run that
+   ends in `continue` produces no line, one that falls through produces the line of the three integers it has read, and the
+   next iteration starts on the bytes the translated body has left. *)
+Theorem C14_source_entry_loop : forall f tbl d,
+  ilog_loop (S f) tbl d = ReaderLoopFacts.ilog_step f tbl d.
+Proof. exact ReaderLoopFacts.ilog_body_correct. Qed.
+Print Assumptions C14_source_entry_loop.
 
 (* non-vacuity: overlapping patterns (first wins), reported-flag retry with suffix, arity fallback,
    zero entry skipped, trailing partial entry ignored *)
